@@ -100,18 +100,23 @@ def content(mode, i, seed):
     # half compressible
     return blk(n // 2) + bytes(r.randrange(3) for _ in range(n - n // 2))
 
+_LZMA_CACHE = {}
+
 def lzma_alone_of_size(want, seed):
     """A .lzma file (known uncompressed size, no end marker) of exactly `want` bytes, and its plaintext."""
-    import random, struct
+    import random
+    if want in _LZMA_CACHE:
+        return _LZMA_CACHE[want]
     r = random.Random(seed)
     base = bytes(r.getrandbits(8) for _ in range(want + 200))
     filt = [{"id": lzma.FILTER_LZMA1, "preset": 1}]
-    for n in list(range(want - 135, want + 60)) + list(range(want - 500, want - 135)):
+    for n in list(range(want - 122, want - 160, -1)) + list(range(want - 122, want + 60)) + list(range(want - 500, want - 160)):
         for tail in range(0, 40, 3):
             plain = base[:n] + bytes(tail)
             x = lzma.compress(plain, format=lzma.FORMAT_ALONE, filters=filt)
             # python writes "size unknown" + end marker; keep that form (xz accepts both)
             if len(x) == want:
+                _LZMA_CACHE[want] = (x, plain)
                 return x, plain
     raise MachineryError("could not build a .lzma file of %d bytes" % want)
 
